@@ -119,8 +119,8 @@ LSLine(e) ==
                        ELSE IF e.raised THEN {"raised"}
                        ELSE IF e.a # r.a THEN {IF rs.lo.calls = 0 THEN "step-first-call" ELSE "step"} ELSE {},
                 rs |-> [lo |-> BTNext(rs.lo, r)],
-                \* after an error the state of the object is not specified: the episode ends
-                cx |-> [cx EXCEPT !.over = e.raised]])
+                \* after an error the remembered step of the object is not specified: with estimate_step the episode ends
+                cx |-> [cx EXCEPT !.over = e.raised /\ I.ls.est]])
         ELSE W(E(StepLen(I.P, I.ls, rs.lo, qq.x, qq.d, dd)), LAMBDA r :
                [cl |-> IF e.raised THEN {"raised"} ELSE IF e.a # r.a THEN {"step"} ELSE {},
                 rs |-> [lo |-> r.lo], cx |-> cx])
